@@ -3,34 +3,33 @@
   model `Honeycomb/Model/Kernels/VertexInsertion.lean`).
 
   PROVED (all maps, all darts, all position lists; no bound)
-  (a) well-formedness:
-      * `C14_insertVertex_preserves_WF`            — `insert_vertex_on_edge`, every edge with a second end point;
-      * `C14_insertVertices_preserves_WF_partial`  — `insert_vertices_on_edge` under the hypothesis excluding
-        exactly finding D8 (two-dart edge whose base dart is 1-free);
-      * `C14_D8_witness`                           — without that hypothesis the statement is FALSE: on a concrete
-        5-dart map the call returns `Ok`, writes `β0(0) = 3`, and the result is not well formed (`decide`).
-      The guards are the code's own (counts, freeness on the committed map, non-null darts, bounds, defined end
-      points); the user-side hypotheses are: the edge dart is in use, spare darts are not removed darts, and
-      (two-dart edge) pairwise distinct.
+  (a) well-formedness, full strength:
+      * `C14_insertVertex_preserves_WF`    — `insert_vertex_on_edge`, every edge with a second end point;
+      * `C14_insertVertices_preserves_WF`  — `insert_vertices_on_edge`, every edge shape (the former exclusion of
+        finding D8 — two-dart edge whose base dart is 1-free — is gone with /repo e966dbe; an `example` runs that
+        shape: `Ok`, `β0(0) = 0`, well formed).
+      The guards are the code's own (counts, freeness read through the transaction, non-null darts, bounds,
+      defined end points); the user-side hypotheses are: the edge dart is in use, spare darts are not removed
+      darts, and (two-dart edge) pairwise distinct.
   (b) validation: `C14_error_leaves_map_unchanged(_single)` (instance of `C06_error_leaves_map_unchanged`: an
       error of any kind publishes nothing), `C14_ok_implies_guards(_single)` (a successful call passed every
       documented check), and the error kinds returned exactly when a check fails, in the code's order:
       `C14_wrong_count`, `C14_not_free`, `C14_null_first`, `C14_null_second`, `C14_bound`,
       `C14_bound_single`, `C14_first_dart_single`.  Each of these returns the state `m` itself: the error
       happens before any write.
-  (c) positions: `C14_new_vertex_position` (slot of the i-th new dart = `v1 + (v2 - v1)·t_i`, every other slot
-      of every storage unchanged), `C14_lerp_ratio`, `C14_lerp_collinear`, `C14_lerp_strictly_between`,
-      `C14_lerp_order` over ℚ.
+  (c) positions: `C14_new_vertex_position` — the i-th new point `v1 + (v2 - v1)·t_i` sits in the slot of the VERTEX
+      identifier of the i-th new dart in the resulting map (/repo 54572f5; former finding D11), every other slot of
+      every storage is unchanged; hypothesis: the new darts lie in pairwise distinct vertices of the result.
+      `C14_lerp_ratio`, `C14_lerp_collinear`, `C14_lerp_strictly_between`, `C14_lerp_order` over ℚ.
 
   NOT PROVED (validated on every case by the oracle of tools/props/c14.py)
   * the exact β images after a successful call (chain base → nd₁ → … → nd_k → old successor, reversed β2 pairing,
-    every other image unchanged) and that the vertex orbits of the end points keep their dart sets;
+    every other image unchanged), that the vertex orbits of the end points keep their dart sets, and that the new
+    darts lie in pairwise distinct vertices (hypothesis of `C14_new_vertex_position`);
   * the `UndefinedEdge` error as an exact characterisation (needs totality of the vertex-id BFS on well-formed
-    maps); the direction "Ok ⇒ both end points defined" is part of `C14_ok_implies_guards`;
-  * that the new point is stored under the *vertex id* of the new vertex: it is not — the code writes at the dart
-    id (finding D11 of known_findings.json; `C14_new_vertex_position` states what the code does).
-  * the non-transactional freeness test (finding D3, property C08): the kernels take the committed map as an
-    explicit parameter; the theorems above are for single-call transactions (`c = m`) or are stated for any `c`.
+    maps); the direction "Ok ⇒ both end points defined" is part of `C14_ok_implies_guards`.
+  The freeness test is transactional since /repo cc2bcd4 (former finding D3 of C08): the kernels are plain
+  closures over the transaction and C06/C08's theorems apply to them without a side condition.
 -/
 import Honeycomb.Lemmas.KernelWF
 import Honeycomb.Props.C06
@@ -59,19 +58,27 @@ theorem attrOnly_writeVtx (d : Nat) (v : Val) : AttrOnly (writeVtx d v) := by
   refine AttrOnly.bind (AttrOnly.of_readOnly (ReadOnly.rA _ _)) fun _ => ?_
   exact AttrOnly.bind (AttrOnly.wA _ _ _) fun _ => AttrOnly.pure _
 
-theorem keeps_chainFirst (v1 v2 : Val) : ∀ (l : List (Rat × Nat)) (prev : Nat), Live n u prev →
-    (∀ x ∈ l, Live n u x.2) → KeepsR n u (chainFirst v1 v2 prev l) (fun a => Live n u a) := by
+theorem keeps_chainFirst : ∀ (l : List Nat) (prev : Nat), Live n u prev →
+    (∀ x ∈ l, Live n u x) → KeepsR n u (chainFirst prev l) (fun a => Live n u a) := by
   intro l
   induction l with
   | nil => intro prev hp _; exact KeepsR.pure _ hp
-  | cons x rest ih =>
+  | cons nd rest ih =>
       intro prev hp hl
-      obtain ⟨t, nd⟩ := x
       unfold chainFirst
-      have hnd : Live n u nd := hl (t, nd) (by simp)
+      have hnd : Live n u nd := hl nd (by simp)
       refine KeepsR.keeps_bindR (Keeps.oneLinkCore hp hnd) fun _ => ?_
-      refine KeepsR.keeps_bindR (Keeps.of_attrOnly (attrOnly_writeVtx _ _)) fun _ => ?_
       exact ih nd hnd (fun y hy => hl y (by simp [hy]))
+
+theorem attrOnly_placeVertices (k : Nat) (v1 v2 : Val) : ∀ (l : List (Rat × Nat)), AttrOnly (placeVertices k v1 v2 l) := by
+  intro l
+  induction l with
+  | nil => exact AttrOnly.pure _
+  | cons x rest ih =>
+      obtain ⟨t, nd⟩ := x
+      unfold placeVertices
+      refine AttrOnly.bind (AttrOnly.of_readOnly (readOnly_vertexId2 _ _)) fun _ => ?_
+      exact AttrOnly.bind (attrOnly_writeVtx _ _) fun _ => ih
 
 theorem keeps_chainSecond : ∀ (l : List (Nat × Nat)) (prev : Nat), Live n u prev →
     (∀ x ∈ l, Live n u x.1 ∧ Live n u x.2) → (∀ y ∈ l, prev ≠ y.1) → (∀ x ∈ l, ∀ y ∈ l, x.2 ≠ y.1) →
@@ -124,18 +131,17 @@ theorem keeps_side2 (base1 base2 : Nat) (fh sh : List Nat)
   · exact Keeps.oneLinkCore hpl.1 (hlive (by simpa using hc))
   · exact Keeps.twoLinkCore hpl.1 hb1 hpl.2
 
-theorem keeps_insertVerticesBody (v1 v2 : Val) (base1 base2 b1 : Nat) (fh sh : List Nat) (ts : List Rat)
-    (hb1 : Live n u base1) (hb1old : Live n u b1) (hfh : ∀ d ∈ fh, Live n u d)
+theorem keeps_insertVerticesBody (k : Nat) (v1 v2 : Val) (base1 base2 b1 : Nat) (fh sh : List Nat) (ts : List Rat)
+    (hb1 : Live n u base1) (hb1old : b1 ≠ 0 → Live n u b1) (hfh : ∀ d ∈ fh, Live n u d)
     (h2 : base2 ≠ 0 → Live n u base2 ∧ (∀ d ∈ sh, Live n u d) ∧ base2 ≠ base1 ∧ (∀ d ∈ fh, base2 ≠ d) ∧
       (∀ x ∈ sh, ∀ d ∈ fh, x ≠ d) ∧ (∀ x ∈ sh, x ≠ base1)) :
-    Keeps n u (insertVerticesBody v1 v2 base1 base2 b1 fh sh ts) := by
+    Keeps n u (insertVerticesBody k v1 v2 base1 base2 b1 fh sh ts) := by
   unfold insertVerticesBody
   refine Keeps.bind (keeps_whenP fun _ => Keeps.oneUnlinkCore hb1) fun _ => ?_
   refine Keeps.bind (keeps_whenP fun _ => Keeps.twoUnlinkCore hb1) fun _ => ?_
-  refine KeepsR.bind (keeps_chainFirst v1 v2 (ts.zip fh) base1 hb1 (fun x hx => hfh _ (mem_zip_snd hx)))
-    fun prev hprev => ?_
-  refine Keeps.bind (Keeps.oneLinkCore hprev hb1old) fun _ => ?_
-  refine keeps_whenP fun hc => ?_
+  refine KeepsR.bind (keeps_chainFirst fh base1 hb1 hfh) fun prev hprev => ?_
+  refine Keeps.bind (keeps_whenP fun hc => Keeps.oneLinkCore hprev (hb1old (by simpa using hc))) fun _ => ?_
+  refine Keeps.bind (keeps_whenP fun hc => ?_) fun _ => Keeps.of_attrOnly (attrOnly_placeVertices _ _ _ _)
   obtain ⟨a, b, c, d, e, f⟩ := h2 (by simpa using hc)
   exact keeps_side2 base1 base2 fh sh hb1 a hfh b c d e f
 
@@ -168,86 +174,137 @@ theorem keeps_insertVertexBody2 (v1 v2 : Val) (base1 base2 b1 b2 nd1 nd2 : Nat) 
 
 /-! ## the validation prefix -/
 
-theorem run_isFreeNT (c m : Map Val) (d : Nat) :
-    run (isFreeNT c d) m = if d < c.n then (.ok (c.isFree 3 d), m) else (.panic, m) := by
-  unfold isFreeNT; split <;> rfl
+/-- `is_free_transac` unfolded -/
+theorem run_isFreeTx_unfold (m : Map Val) (d : Nat) :
+    run (isFreeTx d) m =
+      if m.okβ 0 d = true then
+        if m.β 0 d ≠ 0 then (.ok false, m)
+        else if m.okβ 1 d = true then
+          if m.β 1 d ≠ 0 then (.ok false, m)
+          else if m.okβ 2 d = true then (.ok (decide (m.β 2 d = 0)), m) else (.panic, m)
+        else (.panic, m)
+      else (.panic, m) := by
+  unfold isFreeTx
+  simp only [Prog.bind_eq, bind, run_rB]
+  by_cases h0 : m.okβ 0 d = true
+  · simp only [h0, if_true]
+    by_cases b0 : m.β 0 d = 0
+    · simp only [b0, ne_eq, not_true_eq_false, if_false, run_rB]
+      by_cases h1 : m.okβ 1 d = true
+      · simp only [h1, if_true]
+        by_cases b1 : m.β 1 d = 0
+        · simp only [b1, ne_eq, not_true_eq_false, if_false, run_rB]
+          by_cases h2 : m.okβ 2 d = true
+          · simp [h2]
+          · simp [h2]
+        · simp [b1]
+      · simp [h1]
+    · simp [b0]
+  · simp [h0]
 
-theorem readOnly_isFreeNT (c : Map Val) (d : Nat) : ReadOnly (isFreeNT (X := Val) c d) := by
-  intro m; rw [run_isFreeNT]; split <;> rfl
+theorem isFree3 (m : Map Val) (d : Nat) :
+    m.isFree 3 d = (decide (m.β 0 d = 0) && decide (m.β 1 d = 0) && decide (m.β 2 d = 0)) := by
+  unfold Map.isFree
+  have : List.range 3 = [0, 1, 2] := by decide
+  rw [this]; simp [Bool.and_assoc]
 
-theorem readOnly_nullOrNotFreeNT (c : Map Val) (d : Nat) : ReadOnly (nullOrNotFreeNT (X := Val) c d) := by
-  unfold nullOrNotFreeNT
+/-- on a map with all its rows, `is_free_transac` computes `is_free` -/
+theorem run_isFreeTx (m : Map Val) (d : Nat) (h : ∀ i, i < 3 → m.okβ i d = true) :
+    run (isFreeTx d) m = (.ok (m.isFree 3 d), m) := by
+  rw [run_isFreeTx_unfold, isFree3, h 0 (by omega), h 1 (by omega), h 2 (by omega)]
+  by_cases b0 : m.β 0 d = 0 <;> by_cases b1 : m.β 1 d = 0 <;> simp [b0, b1]
+
+theorem readOnly_isFreeTx (d : Nat) : ReadOnly (isFreeTx (X := Val) d) := by
+  intro m; rw [run_isFreeTx_unfold]; repeat' split
+  all_goals rfl
+
+theorem isFreeTx_ok {m m' : Map Val} {d : Nat} {b : Bool} (h : run (isFreeTx d) m = (.ok b, m')) :
+    m.okβ 0 d = true ∧ b = m.isFree 3 d := by
+  rw [run_isFreeTx_unfold, isFree3] at *
+  by_cases h0 : m.okβ 0 d = true
+  · refine ⟨h0, ?_⟩
+    simp only [h0, if_true] at h
+    by_cases b0 : m.β 0 d = 0
+    · simp only [b0, ne_eq, not_true_eq_false, if_false] at h
+      by_cases h1 : m.okβ 1 d = true
+      · simp only [h1, if_true] at h
+        by_cases b1 : m.β 1 d = 0
+        · simp only [b1, ne_eq, not_true_eq_false, if_false] at h
+          by_cases h2 : m.okβ 2 d = true
+          · simp only [h2, if_true, Prod.mk.injEq, Out.ok.injEq] at h
+            simp [b0, b1, ← h.1]
+          · simp [h2] at h
+        · simp [b1] at h; rw [h.1]; simp [b1]
+      · simp [h1] at h
+    · simp [b0] at h; rw [h.1]; simp [b0]
+  · simp [h0] at h
+
+theorem readOnly_nullOrNotFreeTx (d : Nat) : ReadOnly (nullOrNotFreeTx (X := Val) d) := by
+  unfold nullOrNotFreeTx
   split
   · exact ReadOnly.pure _
-  · exact ReadOnly.bind (readOnly_isFreeNT c d) fun _ => ReadOnly.pure _
+  · exact ReadOnly.bind (readOnly_isFreeTx d) fun _ => ReadOnly.pure _
 
-theorem readOnly_anyNotFreeNT (c : Map Val) : ∀ l, ReadOnly (anyNotFreeNT (X := Val) c l) := by
+theorem readOnly_anyNotFreeTx : ∀ l, ReadOnly (anyNotFreeTx (X := Val) l) := by
   intro l
   induction l with
   | nil => exact ReadOnly.pure _
   | cons d ds ih =>
-      unfold anyNotFreeNT
-      exact ReadOnly.bind (readOnly_isFreeNT c d) fun f => ReadOnly.ite (ReadOnly.pure _) ih
+      unfold anyNotFreeTx
+      exact ReadOnly.bind (readOnly_isFreeTx d) fun f => ReadOnly.ite (ReadOnly.pure _) ih
 
-/-- what `new_darts.iter().any(|d| !cmap.is_free(*d))` returned -/
-theorem anyNotFreeNT_ok (c : Map Val) : ∀ (l : List Nat) (m m' : Map Val) (b : Bool),
-    run (anyNotFreeNT c l) m = (.ok b, m') →
-      (b = false → ∀ d ∈ l, d < c.n ∧ c.isFree 3 d = true) ∧ (b = true → ∃ d ∈ l, d < c.n ∧ c.isFree 3 d = false) := by
+/-- what the freeness loop over `new_darts` established -/
+theorem anyNotFreeTx_ok : ∀ (l : List Nat) (m m' : Map Val) (b : Bool),
+    run (anyNotFreeTx l) m = (.ok b, m') →
+      (b = false → ∀ d ∈ l, m.okβ 0 d = true ∧ m.isFree 3 d = true) ∧
+      (b = true → ∃ d ∈ l, m.okβ 0 d = true ∧ m.isFree 3 d = false) := by
   intro l
   induction l with
   | nil =>
       intro m m' b h
-      simp [anyNotFreeNT] at h
+      simp [anyNotFreeTx] at h
       obtain ⟨hb, _⟩ := h
       subst hb
       simp
   | cons d ds ih =>
       intro m m' b h
-      unfold anyNotFreeNT at h
-      obtain ⟨f, h1, h2⟩ := ro_bind_ok (readOnly_isFreeNT c d) h
-      rw [run_isFreeNT] at h1
-      by_cases hd : d < c.n
-      · simp only [hd, if_true, Prod.mk.injEq, Out.ok.injEq] at h1
-        cases hf : c.isFree 3 d
-        · rw [hf] at h1
-          rw [← h1.1] at h2
-          simp at h2
-          obtain ⟨hb, _⟩ := h2
-          subst hb
-          exact ⟨by simp, fun _ => ⟨d, by simp, hd, hf⟩⟩
-        · rw [hf] at h1
-          rw [← h1.1] at h2
-          simp at h2
-          obtain ⟨i1, i2⟩ := ih m m' b h2
-          refine ⟨fun hb => ?_, fun hb => ?_⟩
-          · intro x hx
-            simp only [List.mem_cons] at hx
-            rcases hx with rfl | hx
-            · exact ⟨hd, hf⟩
-            · exact i1 hb x hx
-          · obtain ⟨x, hx, hh⟩ := i2 hb
-            exact ⟨x, by simp [hx], hh⟩
-      · simp [hd] at h1
+      unfold anyNotFreeTx at h
+      obtain ⟨f, h1, h2⟩ := ro_bind_ok (readOnly_isFreeTx d) h
+      obtain ⟨hok, hf⟩ := isFreeTx_ok h1
+      subst hf
+      cases hfr : m.isFree 3 d
+      · rw [hfr] at h2
+        simp at h2
+        obtain ⟨hb, _⟩ := h2
+        subst hb
+        exact ⟨by simp, fun _ => ⟨d, by simp, hok, hfr⟩⟩
+      · rw [hfr] at h2
+        simp at h2
+        obtain ⟨i1, i2⟩ := ih m m' b h2
+        refine ⟨fun hb => ?_, fun hb => ?_⟩
+        · intro x hx
+          simp only [List.mem_cons] at hx
+          rcases hx with rfl | hx
+          · exact ⟨hok, hfr⟩
+          · exact i1 hb x hx
+        · obtain ⟨x, hx, hh⟩ := i2 hb
+          exact ⟨x, by simp [hx], hh⟩
 
-theorem nullOrNotFreeNT_ok (c m m' : Map Val) (d : Nat) (b : Bool)
-    (h : run (nullOrNotFreeNT c d) m = (.ok b, m')) :
-    b = (decide (d = 0) || !(c.isFree 3 d)) ∧ (d ≠ 0 → d < c.n) := by
-  unfold nullOrNotFreeNT at h
+theorem nullOrNotFreeTx_ok (m m' : Map Val) (d : Nat) (b : Bool)
+    (h : run (nullOrNotFreeTx d) m = (.ok b, m')) :
+    b = (decide (d = 0) || !(m.isFree 3 d)) ∧ (d ≠ 0 → m.okβ 0 d = true) := by
+  unfold nullOrNotFreeTx at h
   by_cases hd : d = 0
   · simp [hd] at h ⊢; exact h.1
   · simp only [hd, if_false] at h
-    obtain ⟨f, h1, h2⟩ := ro_bind_ok (readOnly_isFreeNT c d) h
-    rw [run_isFreeNT] at h1
-    by_cases hn : d < c.n
-    · simp only [hn, if_true, Prod.mk.injEq, Out.ok.injEq] at h1
-      simp at h2
-      obtain ⟨h3, _⟩ := h2
-      obtain ⟨h4, _⟩ := h1
-      subst h4
-      have : b = !(c.isFree 3 d) := by rw [h3]; simp
-      rw [this]
-      simp [hd, hn]
-    · simp [hn] at h1
+    obtain ⟨f, h1, h2⟩ := ro_bind_ok (readOnly_isFreeTx d) h
+    obtain ⟨hok, hf⟩ := isFreeTx_ok h1
+    simp at h2
+    obtain ⟨h3, _⟩ := h2
+    subst hf
+    have : b = !(m.isFree 3 d) := by rw [h3]; simp
+    rw [this]
+    simp [hd, hok]
 
 theorem withEnds_ok {α : Type} {v1 v2 : Option Val} {k : Val → Val → P Val α} {m m' : Map Val} {a : α}
     (h : run (withEnds v1 v2 k) m = (.ok a, m')) :
@@ -275,10 +332,10 @@ theorem rB_bind_ok {α : Type} {i d : Nat} {k : Nat → P Val α} {m m' : Map Va
   · simp [hok] at h
 
 /-- everything a successful `insert_vertices_on_edge` has checked and read before its first write -/
-theorem insertVertices_ok_elim {n : Nat} {c m m' : Map Val} {e : Nat} {nds : List Nat} {ts : List Rat}
-    (h : run (insertVerticesOnEdge n c e nds ts) m = (.ok (), m')) :
+theorem insertVertices_ok_elim {n : Nat} {m m' : Map Val} {e : Nat} {nds : List Nat} {ts : List Rat}
+    (h : run (insertVerticesOnEdge n e nds ts) m = (.ok (), m')) :
     nds.length = 2 * ts.length ∧
-    (∀ d ∈ nds, d < c.n ∧ c.isFree 3 d = true) ∧
+    (∀ d ∈ nds, m.okβ 0 d = true ∧ m.isFree 3 d = true) ∧
     m.okβ 2 e = true ∧
     (∀ d ∈ nds.take ts.length, d ≠ 0) ∧
     (m.β 2 e ≠ 0 → ∀ d ∈ nds.drop ts.length, d ≠ 0) ∧
@@ -288,16 +345,16 @@ theorem insertVertices_ok_elim {n : Nat} {c m m' : Map Val} {e : Nat} {nds : Lis
       run (vertexId2 n e) m = (.ok vid1, m) ∧
       run (vertexId2 n (if m.β 1 e ≠ 0 then m.β 1 e else m.β 2 e)) m = (.ok vid2, m) ∧
       m.att 0 vid1 = some v1 ∧ m.att 0 vid2 = some v2 ∧
-      run (insertVerticesBody v1 v2 e (m.β 2 e) (m.β 1 e) (nds.take ts.length) (nds.drop ts.length) ts) m
+      run (insertVerticesBody n v1 v2 e (m.β 2 e) (m.β 1 e) (nds.take ts.length) (nds.drop ts.length) ts) m
         = (.ok (), m') := by
   unfold insertVerticesOnEdge at h
   simp only [Prog.bind_eq, bind] at h
   by_cases hc : nds.length = 2 * ts.length
   · simp only [hc, ne_eq, not_true_eq_false, if_false] at h
-    obtain ⟨nf, h1, h⟩ := ro_bind_ok (readOnly_anyNotFreeNT c nds) h
+    obtain ⟨nf, h1, h⟩ := ro_bind_ok (readOnly_anyNotFreeTx nds) h
     cases nf
     · simp only [Bool.false_eq_true, if_false] at h
-      have hfree := (anyNotFreeNT_ok c nds m m false h1).1 rfl
+      have hfree := (anyNotFreeTx_ok nds m m false h1).1 rfl
       obtain ⟨hok, h⟩ := rB_bind_ok h
       by_cases c1 : ((List.take ts.length nds).any fun x => decide (x = 0)) = true
       · rw [if_pos c1] at h; simp at h
@@ -355,28 +412,24 @@ theorem live_image {m : Map Val} (hwf : WF 3 m) {i d : Nat} (hi : i < 3) (hd : d
 theorem free_β {m : Map Val} {d : Nat} (h : m.isFree 3 d = true) (i : Nat) (hi : i < 3) : m.β i d = 0 :=
   (isFree_iff m 3 d).1 h i hi
 
-/-- **C14 (a), partial**: a successful `insert_vertices_on_edge` keeps a well-formed 2-map well formed,
-    provided the call is not of the shape of finding D8 (two-dart edge whose base dart is 1-free).
-    Hypotheses besides D8's exclusion: the edge dart is a live dart, the spare darts are not removed
-    darts and (on a two-dart edge, where all of them are used) pairwise distinct.  Everything else —
-    counts, freeness, non-nullness, bounds, defined end points — is checked by the code itself. -/
-theorem C14_insertVertices_preserves_WF_partial (m m' : Map Val) (e : Nat) (nds : List Nat) (ts : List Rat)
+/-- **C14 (a)**: a successful `insert_vertices_on_edge` keeps a well-formed 2-map well formed — every edge shape,
+    every `k`, every position list (full strength since /repo e966dbe; before, the statement was false on two-dart
+    edges whose base dart is 1-free: finding D8).
+    User-side hypotheses: the edge dart is a live dart, the spare darts are not removed darts and (on a two-dart
+    edge, where all of them are used) pairwise distinct.  Everything else — counts, freeness, non-nullness, bounds,
+    defined end points — is checked by the code itself. -/
+theorem C14_insertVertices_preserves_WF (m m' : Map Val) (e : Nat) (nds : List Nat) (ts : List Rat)
     (hwf : WF 3 m) (he : C01.InUse m e)
     (hlive : ∀ d ∈ nds, m.unused d = false)
     (hnodup : m.β 2 e ≠ 0 → nds.Nodup)
-    (hD8 : ¬ (m.β 2 e ≠ 0 ∧ m.β 1 e = 0))
-    (h : run (insertVerticesOnEdge m.n m e nds ts) m = (.ok (), m')) : WF 3 m' := by
+    (h : run (insertVerticesOnEdge m.n e nds ts) m = (.ok (), m')) : WF 3 m' := by
   obtain ⟨hc, hfree, hok, hfh0, hsh0, _, hend, vid1, vid2, v1, v2, _, _, _, _, hbody⟩ := insertVertices_ok_elim h
-  have hb1 : m.β 1 e ≠ 0 := by
-    intro h0
-    rcases hend with h1 | h2
-    · exact h1 h0
-    · exact hD8 ⟨h2, h0⟩
-  have hL : ∀ d ∈ nds, d ≠ 0 → Live m.n m.u d := fun d hd h0 => ⟨h0, (hfree d hd).1, hlive d hd⟩
+  have hL : ∀ d ∈ nds, d ≠ 0 → Live m.n m.u d :=
+    fun d hd h0 => ⟨h0, ((hwf.toSized.okβ 0 d).1 (hfree d hd).1).2, hlive d hd⟩
   have hfhL : ∀ d ∈ nds.take ts.length, Live m.n m.u d :=
     fun d hd => hL d (List.mem_of_mem_take hd) (hfh0 d hd)
-  have key := keeps_insertVerticesBody (n := m.n) (u := m.u) v1 v2 e (m.β 2 e) (m.β 1 e)
-    (nds.take ts.length) (nds.drop ts.length) ts he (live_image hwf (by omega) he.2.1 hb1) hfhL ?_
+  have key := keeps_insertVerticesBody (n := m.n) (u := m.u) m.n v1 v2 e (m.β 2 e) (m.β 1 e)
+    (nds.take ts.length) (nds.drop ts.length) ts he (fun hb1 => live_image hwf (by omega) he.2.1 hb1) hfhL ?_
   · exact (key m m' () (Inv.of_wf hwf) hbody).wf
   · intro h2
     have hinv := hwf.invol 2 (by omega) (by omega) e he.2.1 h2
@@ -397,11 +450,11 @@ theorem C14_insertVertices_preserves_WF_partial (m m' : Map Val) (e : Nat) (nds 
       exact h2 this
 
 /-- everything a successful `insert_vertex_on_edge` has checked and read before its first write -/
-theorem insertVertex_ok_elim {n : Nat} {c m m' : Map Val} {e nd1 nd2 : Nat} {t : Option Rat}
-    (h : run (insertVertexOnEdge n c e nd1 nd2 t) m = (.ok (), m')) :
+theorem insertVertex_ok_elim {n : Nat} {m m' : Map Val} {e nd1 nd2 : Nat} {t : Option Rat}
+    (h : run (insertVertexOnEdge n e nd1 nd2 t) m = (.ok (), m')) :
     (∀ x, t = some x → outOfUnit x = false) ∧ m.okβ 2 e = true ∧
-    (nd1 ≠ 0 ∧ nd1 < c.n ∧ c.isFree 3 nd1 = true) ∧
-    (m.β 2 e ≠ 0 → nd2 ≠ 0 ∧ nd2 < c.n ∧ c.isFree 3 nd2 = true) ∧
+    (nd1 ≠ 0 ∧ m.okβ 0 nd1 = true ∧ m.isFree 3 nd1 = true) ∧
+    (m.β 2 e ≠ 0 → nd2 ≠ 0 ∧ m.okβ 0 nd2 = true ∧ m.isFree 3 nd2 = true) ∧
     ∃ vid1 vid2 v1 v2,
       run (vertexId2 n e) m = (.ok vid1, m) ∧
       run (vertexId2 n (if m.β 2 e = 0 then m.β 1 e else m.β 2 e)) m = (.ok vid2, m) ∧
@@ -415,14 +468,14 @@ theorem insertVertex_ok_elim {n : Nat} {c m m' : Map Val} {e nd1 nd2 : Nat} {t :
   · rw [if_pos c0] at h; simp at h
   · rw [if_neg c0] at h
     obtain ⟨hok, h⟩ := rB_bind_ok h
-    obtain ⟨bad1, hb1, h⟩ := ro_bind_ok (readOnly_nullOrNotFreeNT c nd1) h
-    obtain ⟨e1, e1'⟩ := nullOrNotFreeNT_ok c m m nd1 bad1 hb1
+    obtain ⟨bad1, hb1, h⟩ := ro_bind_ok (readOnly_nullOrNotFreeTx nd1) h
+    obtain ⟨e1, e1'⟩ := nullOrNotFreeTx_ok m m nd1 bad1 hb1
     cases bad1
     · rw [if_neg (by simp)] at h
-      have hnd1 : nd1 ≠ 0 ∧ nd1 < c.n ∧ c.isFree 3 nd1 = true := by
+      have hnd1 : nd1 ≠ 0 ∧ m.okβ 0 nd1 = true ∧ m.isFree 3 nd1 = true := by
         have : nd1 ≠ 0 := by intro h0; simp [h0] at e1
         refine ⟨this, e1' this, ?_⟩
-        cases hf : c.isFree 3 nd1
+        cases hf : m.isFree 3 nd1
         · simp [hf] at e1
         · rfl
       have ht : ∀ x, t = some x → outOfUnit x = false := by
@@ -443,14 +496,14 @@ theorem insertVertex_ok_elim {n : Nat} {c m m' : Map Val} {e nd1 nd2 : Nat} {t :
         exact ⟨ht, hok, hnd1, fun hh => absurd b2 hh, vid1, vid2, x, y, hv1, by simpa [b2] using hv2, hx, hy,
           fun _ => h, fun hh => absurd b2 hh⟩
       · simp only [b2, ne_eq, not_false_eq_true, if_true] at h
-        obtain ⟨bad2, hb2, h⟩ := ro_bind_ok (readOnly_nullOrNotFreeNT c nd2) h
-        obtain ⟨e2, e2'⟩ := nullOrNotFreeNT_ok c m m nd2 bad2 hb2
+        obtain ⟨bad2, hb2, h⟩ := ro_bind_ok (readOnly_nullOrNotFreeTx nd2) h
+        obtain ⟨e2, e2'⟩ := nullOrNotFreeTx_ok m m nd2 bad2 hb2
         cases bad2
         · rw [if_neg (by simp)] at h
-          have hnd2 : nd2 ≠ 0 ∧ nd2 < c.n ∧ c.isFree 3 nd2 = true := by
+          have hnd2 : nd2 ≠ 0 ∧ m.okβ 0 nd2 = true ∧ m.isFree 3 nd2 = true := by
             have : nd2 ≠ 0 := by intro h0; simp [h0] at e2
             refine ⟨this, e2' this, ?_⟩
-            cases hf : c.isFree 3 nd2
+            cases hf : m.isFree 3 nd2
             · simp [hf] at e2
             · rfl
           obtain ⟨_, h⟩ := rB_bind_ok h
@@ -475,9 +528,9 @@ theorem C14_insertVertex_preserves_WF (m m' : Map Val) (e nd1 nd2 : Nat) (t : Op
     (hwf : WF 3 m) (he : C01.InUse m e)
     (hl1 : m.unused nd1 = false) (hl2 : m.β 2 e ≠ 0 → m.unused nd2 = false)
     (hend : m.β 1 e ≠ 0 ∨ m.β 2 e ≠ 0)
-    (h : run (insertVertexOnEdge m.n m e nd1 nd2 t) m = (.ok (), m')) : WF 3 m' := by
+    (h : run (insertVertexOnEdge m.n e nd1 nd2 t) m = (.ok (), m')) : WF 3 m' := by
   obtain ⟨_, _, hnd1, hnd2, vid1, vid2, v1, v2, _, _, _, _, hB1, hB2⟩ := insertVertex_ok_elim h
-  have hL1 : Live m.n m.u nd1 := ⟨hnd1.1, hnd1.2.1, hl1⟩
+  have hL1 : Live m.n m.u nd1 := ⟨hnd1.1, ((hwf.toSized.okβ 0 nd1).1 hnd1.2.1).2, hl1⟩
   by_cases b2 : m.β 2 e = 0
   · have hb1 : m.β 1 e ≠ 0 := by
       rcases hend with h1 | h1
@@ -487,7 +540,7 @@ theorem C14_insertVertex_preserves_WF (m m' : Map Val) (e nd1 nd2 : Nat) (t : Op
       (live_image hwf (by omega) he.2.1 hb1) hL1
     exact (key m m' () (Inv.of_wf hwf) (hB1 b2)).wf
   · obtain ⟨g1, g2, g3⟩ := hnd2 b2
-    have hL2 : Live m.n m.u nd2 := ⟨g1, g2, hl2 b2⟩
+    have hL2 : Live m.n m.u nd2 := ⟨g1, ((hwf.toSized.okβ 0 nd2).1 g2).2, hl2 b2⟩
     have hinv := hwf.invol 2 (by omega) (by omega) e he.2.1 b2
     have hb2L := live_image hwf (by omega : 2 < 3) he.2.1 b2
     have key := keeps_insertVertexBody2 (n := m.n) (u := m.u) v1 v2 e (m.β 2 e) (m.β 1 e) (m.β 1 (m.β 2 e))
@@ -503,46 +556,25 @@ theorem C14_insertVertex_preserves_WF (m m' : Map Val) (e nd1 nd2 : Nat) (t : Op
       rw [← heq, hinv.1] at this
       exact he.1 this
 
-/-! ## D8: the negation witness -/
-
-/-- darts 1 and 2 form one edge (β2), dart 1 is 1-free; darts 3, 4 are spare -/
-def d8Map : Map Val :=
-  { (Map.empty 3 6 5 : Map Val) with
-    b := #[#[0, 0, 0, 0, 0], #[0, 0, 0, 0, 0], #[0, 2, 1, 0, 0]]
-    a := #[#[none, some (.pt 0 0 0), some (.pt 1 0 0), none, none],
-           Array.replicate 6 none, Array.replicate 6 none, Array.replicate 6 none,
-           Array.replicate 6 none, Array.replicate 6 none] }
-
-/-- **D8**: on a two-dart edge whose base dart is 1-free, `insert_vertices_on_edge` returns `Ok`, writes
-    `β0(0)` and the map is no longer well formed — every hypothesis of the partial theorem except the
-    exclusion of this shape holds. -/
-theorem C14_D8_witness :
-    WF 3 d8Map ∧ C01.InUse d8Map 1 ∧ (∀ d ∈ [3, 4], d8Map.unused d = false) ∧ [3, 4].Nodup ∧
-    (d8Map.β 2 1 ≠ 0 ∧ d8Map.β 1 1 = 0) ∧
-    (run (insertVerticesOnEdge d8Map.n d8Map 1 [3, 4] [1/2]) d8Map).1 = .ok () ∧
-    (run (insertVerticesOnEdge d8Map.n d8Map 1 [3, 4] [1/2]) d8Map).2.β 0 0 = 3 ∧
-    ¬ WF 3 (run (insertVerticesOnEdge d8Map.n d8Map 1 [3, 4] [1/2]) d8Map).2 := by
-  decide +kernel
-
 /-! ## (b) validation: errors before any write, error kinds -/
 
 /-- **C14 (b)**: whatever error a call reports (validation error, failed core operation), the map is
     exactly what it was — instance of C06's theorem for the two kernels -/
 theorem C14_error_leaves_map_unchanged (m : Map Val) (e : Nat) (nds : List Nat) (ts : List Rat) (err : Err)
-    (h : (atomically (insertVerticesOnEdge m.n m e nds ts) m).1 = .err err) :
-    (atomically (insertVerticesOnEdge m.n m e nds ts) m).2 = m :=
+    (h : (atomically (insertVerticesOnEdge m.n e nds ts) m).1 = .err err) :
+    (atomically (insertVerticesOnEdge m.n e nds ts) m).2 = m :=
   C06.C06_error_leaves_map_unchanged _ m err h
 
 theorem C14_error_leaves_map_unchanged_single (m : Map Val) (e nd1 nd2 : Nat) (t : Option Rat) (err : Err)
-    (h : (atomically (insertVertexOnEdge m.n m e nd1 nd2 t) m).1 = .err err) :
-    (atomically (insertVertexOnEdge m.n m e nd1 nd2 t) m).2 = m :=
+    (h : (atomically (insertVertexOnEdge m.n e nd1 nd2 t) m).1 = .err err) :
+    (atomically (insertVertexOnEdge m.n e nd1 nd2 t) m).2 = m :=
   C06.C06_error_leaves_map_unchanged _ m err h
 
 /-- a successful call has passed every documented check -/
-theorem C14_ok_implies_guards {n : Nat} {c m m' : Map Val} {e : Nat} {nds : List Nat} {ts : List Rat}
-    (h : run (insertVerticesOnEdge n c e nds ts) m = (.ok (), m')) :
+theorem C14_ok_implies_guards {n : Nat} {m m' : Map Val} {e : Nat} {nds : List Nat} {ts : List Rat}
+    (h : run (insertVerticesOnEdge n e nds ts) m = (.ok (), m')) :
     nds.length = 2 * ts.length ∧
-    (∀ d ∈ nds, d < c.n ∧ c.isFree 3 d = true) ∧
+    (∀ d ∈ nds, m.okβ 0 d = true ∧ m.isFree 3 d = true) ∧
     (∀ d ∈ nds.take ts.length, d ≠ 0) ∧
     (m.β 2 e ≠ 0 → ∀ d ∈ nds.drop ts.length, d ≠ 0) ∧
     (∀ t ∈ ts, 0 < t ∧ t < 1) ∧
@@ -559,11 +591,11 @@ theorem C14_ok_implies_guards {n : Nat} {c m m' : Map Val} {e : Nat} {nds : List
   simp only [ge_iff_le, Bool.or_eq_false_iff, decide_eq_false_iff_not, not_le] at this
   exact ⟨this.2, this.1⟩
 
-theorem C14_ok_implies_guards_single {n : Nat} {c m m' : Map Val} {e nd1 nd2 : Nat} {t : Option Rat}
-    (h : run (insertVertexOnEdge n c e nd1 nd2 t) m = (.ok (), m')) :
+theorem C14_ok_implies_guards_single {n : Nat} {m m' : Map Val} {e nd1 nd2 : Nat} {t : Option Rat}
+    (h : run (insertVertexOnEdge n e nd1 nd2 t) m = (.ok (), m')) :
     (∀ x, t = some x → 0 < x ∧ x < 1) ∧
-    (nd1 ≠ 0 ∧ nd1 < c.n ∧ c.isFree 3 nd1 = true) ∧
-    (m.β 2 e ≠ 0 → nd2 ≠ 0 ∧ nd2 < c.n ∧ c.isFree 3 nd2 = true) ∧
+    (nd1 ≠ 0 ∧ m.okβ 0 nd1 = true ∧ m.isFree 3 nd1 = true) ∧
+    (m.β 2 e ≠ 0 → nd2 ≠ 0 ∧ m.okβ 0 nd2 = true ∧ m.isFree 3 nd2 = true) ∧
     ∃ vid1 vid2 v1 v2,
       run (vertexId2 n e) m = (.ok vid1, m) ∧
       run (vertexId2 n (if m.β 2 e = 0 then m.β 1 e else m.β 2 e)) m = (.ok vid2, m) ∧
@@ -577,66 +609,70 @@ theorem C14_ok_implies_guards_single {n : Nat} {c m m' : Map Val} {e nd1 nd2 : N
   exact ⟨this.2, this.1⟩
 
 /-- wrong number of spare darts -/
-theorem C14_wrong_count (n : Nat) (c m : Map Val) (e : Nat) (nds : List Nat) (ts : List Rat)
+theorem C14_wrong_count (n : Nat) (m : Map Val) (e : Nat) (nds : List Nat) (ts : List Rat)
     (h : nds.length ≠ 2 * ts.length) :
-    run (insertVerticesOnEdge n c e nds ts) m = (.err (errWrongAmountDarts (2 * ts.length) nds.length), m) := by
+    run (insertVerticesOnEdge n e nds ts) m = (.err (errWrongAmountDarts (2 * ts.length) nds.length), m) := by
   unfold insertVerticesOnEdge
   simp only [Prog.bind_eq, bind]
   rw [if_pos h]; rfl
 
-theorem run_anyNotFreeNT (c m : Map Val) : ∀ (l : List Nat), (∀ d ∈ l, d < c.n) →
-    run (anyNotFreeNT c l) m = (.ok (l.any fun d => !c.isFree 3 d), m) := by
+/-- every β row of an existing dart can be read -/
+theorem okβ_of_lt {m : Map Val} (hs : Sized 3 m) {d : Nat} (hd : d < m.n) : ∀ i, i < 3 → m.okβ i d = true :=
+  fun i hi => (hs.okβ i d).2 ⟨hi, hd⟩
+
+theorem run_anyNotFreeTx (m : Map Val) (hs : Sized 3 m) : ∀ (l : List Nat), (∀ d ∈ l, d < m.n) →
+    run (anyNotFreeTx l) m = (.ok (l.any fun d => !m.isFree 3 d), m) := by
   intro l
   induction l with
   | nil => intro _; rfl
   | cons d ds ih =>
       intro hr
-      unfold anyNotFreeNT
+      unfold anyNotFreeTx
       simp only [Prog.bind_eq, bind]
-      rw [run_bind, run_isFreeNT]
-      have hd : d < c.n := hr d (by simp)
-      simp only [hd, if_true, List.any_cons]
-      cases hf : c.isFree 3 d
+      rw [run_bind, run_isFreeTx m d (okβ_of_lt hs (hr d (by simp)))]
+      simp only [List.any_cons]
+      cases hf : m.isFree 3 d
       · simp
       · simp only [Bool.not_true, Bool.false_eq_true, if_false, Bool.false_or]
         exact ih (fun x hx => hr x (by simp [hx]))
 
-/-- a spare dart that is not free (the test reads the committed map `c`) -/
-theorem C14_not_free (n : Nat) (c m : Map Val) (e : Nat) (nds : List Nat) (ts : List Rat)
-    (hlen : nds.length = 2 * ts.length) (hr : ∀ d ∈ nds, d < c.n) (hnf : ∃ d ∈ nds, c.isFree 3 d = false) :
-    run (insertVerticesOnEdge n c e nds ts) m = (.err (errInvalidDarts "one-dart-is-not-free"), m) := by
+/-- a spare dart that is not free (the test goes through the transaction: it sees the map as the transaction
+    sees it) -/
+theorem C14_not_free (n : Nat) (m : Map Val) (hs : Sized 3 m) (e : Nat) (nds : List Nat) (ts : List Rat)
+    (hlen : nds.length = 2 * ts.length) (hr : ∀ d ∈ nds, d < m.n) (hnf : ∃ d ∈ nds, m.isFree 3 d = false) :
+    run (insertVerticesOnEdge n e nds ts) m = (.err (errInvalidDarts "one-dart-is-not-free"), m) := by
   unfold insertVerticesOnEdge
   simp only [Prog.bind_eq, bind]
-  rw [if_neg (by simpa using hlen), run_bind, run_anyNotFreeNT c m nds hr]
-  have : (nds.any fun d => !c.isFree 3 d) = true := by
+  rw [if_neg (by simpa using hlen), run_bind, run_anyNotFreeTx m hs nds hr]
+  have : (nds.any fun d => !m.isFree 3 d) = true := by
     obtain ⟨d, hd, hf⟩ := hnf
     simp only [List.any_eq_true]; exact ⟨d, hd, by simp [hf]⟩
   simp only [this, if_true]; rfl
 
 /-- a null dart in the first half -/
-theorem C14_null_first (n : Nat) (c m : Map Val) (e : Nat) (nds : List Nat) (ts : List Rat)
-    (hlen : nds.length = 2 * ts.length) (hfree : ∀ d ∈ nds, d < c.n ∧ c.isFree 3 d = true)
+theorem C14_null_first (n : Nat) (m : Map Val) (hs : Sized 3 m) (e : Nat) (nds : List Nat) (ts : List Rat)
+    (hlen : nds.length = 2 * ts.length) (hfree : ∀ d ∈ nds, d < m.n ∧ m.isFree 3 d = true)
     (hok : m.okβ 2 e = true) (h0 : 0 ∈ nds.take ts.length) :
-    run (insertVerticesOnEdge n c e nds ts) m
+    run (insertVerticesOnEdge n e nds ts) m
       = (.err (errInvalidDarts "one-dart-of-the-first-half-is-null"), m) := by
   unfold insertVerticesOnEdge
   simp only [Prog.bind_eq, bind]
-  rw [if_neg (by simpa using hlen), run_bind, run_anyNotFreeNT c m nds (fun d hd => (hfree d hd).1)]
-  have : (nds.any fun d => !c.isFree 3 d) = false := by
+  rw [if_neg (by simpa using hlen), run_bind, run_anyNotFreeTx m hs nds (fun d hd => (hfree d hd).1)]
+  have : (nds.any fun d => !m.isFree 3 d) = false := by
     simp only [List.any_eq_false]; intro d hd; simp [(hfree d hd).2]
   simp only [this, Bool.false_eq_true, if_false, run_rB, hok, if_true]
   rw [if_pos (by simp only [List.any_eq_true, decide_eq_true_eq]; exact ⟨0, h0, rfl⟩)]; rfl
 
 /-- a null dart in the second half of a two-dart edge -/
-theorem C14_null_second (n : Nat) (c m : Map Val) (e : Nat) (nds : List Nat) (ts : List Rat)
-    (hlen : nds.length = 2 * ts.length) (hfree : ∀ d ∈ nds, d < c.n ∧ c.isFree 3 d = true)
+theorem C14_null_second (n : Nat) (m : Map Val) (hs : Sized 3 m) (e : Nat) (nds : List Nat) (ts : List Rat)
+    (hlen : nds.length = 2 * ts.length) (hfree : ∀ d ∈ nds, d < m.n ∧ m.isFree 3 d = true)
     (hok : m.okβ 2 e = true) (h1 : 0 ∉ nds.take ts.length) (h2 : m.β 2 e ≠ 0) (h0 : 0 ∈ nds.drop ts.length) :
-    run (insertVerticesOnEdge n c e nds ts) m
+    run (insertVerticesOnEdge n e nds ts) m
       = (.err (errInvalidDarts "one-dart-of-the-second-half-is-null"), m) := by
   unfold insertVerticesOnEdge
   simp only [Prog.bind_eq, bind]
-  rw [if_neg (by simpa using hlen), run_bind, run_anyNotFreeNT c m nds (fun d hd => (hfree d hd).1)]
-  have : (nds.any fun d => !c.isFree 3 d) = false := by
+  rw [if_neg (by simpa using hlen), run_bind, run_anyNotFreeTx m hs nds (fun d hd => (hfree d hd).1)]
+  have : (nds.any fun d => !m.isFree 3 d) = false := by
     simp only [List.any_eq_false]; intro d hd; simp [(hfree d hd).2]
   simp only [this, Bool.false_eq_true, if_false, run_rB, hok, if_true]
   rw [if_neg (by simp only [List.any_eq_true, decide_eq_true_eq]; rintro ⟨x, hx, rfl⟩; exact h1 hx)]
@@ -645,15 +681,15 @@ theorem C14_null_second (n : Nat) (c m : Map Val) (e : Nat) (nds : List Nat) (ts
   rfl
 
 /-- a position outside `]0,1[` -/
-theorem C14_bound (n : Nat) (c m : Map Val) (e : Nat) (nds : List Nat) (ts : List Rat)
-    (hlen : nds.length = 2 * ts.length) (hfree : ∀ d ∈ nds, d < c.n ∧ c.isFree 3 d = true)
+theorem C14_bound (n : Nat) (m : Map Val) (hs : Sized 3 m) (e : Nat) (nds : List Nat) (ts : List Rat)
+    (hlen : nds.length = 2 * ts.length) (hfree : ∀ d ∈ nds, d < m.n ∧ m.isFree 3 d = true)
     (hok : m.okβ 2 e = true) (h1 : 0 ∉ nds.take ts.length) (h2 : m.β 2 e ≠ 0 → 0 ∉ nds.drop ts.length)
     (ht : ∃ t ∈ ts, t ≤ 0 ∨ 1 ≤ t) :
-    run (insertVerticesOnEdge n c e nds ts) m = (.err errVertexBound, m) := by
+    run (insertVerticesOnEdge n e nds ts) m = (.err errVertexBound, m) := by
   unfold insertVerticesOnEdge
   simp only [Prog.bind_eq, bind]
-  rw [if_neg (by simpa using hlen), run_bind, run_anyNotFreeNT c m nds (fun d hd => (hfree d hd).1)]
-  have : (nds.any fun d => !c.isFree 3 d) = false := by
+  rw [if_neg (by simpa using hlen), run_bind, run_anyNotFreeTx m hs nds (fun d hd => (hfree d hd).1)]
+  have : (nds.any fun d => !m.isFree 3 d) = false := by
     simp only [List.any_eq_false]; intro d hd; simp [(hfree d hd).2]
   simp only [this, Bool.false_eq_true, if_false, run_rB, hok, if_true]
   rw [if_neg (by simp only [List.any_eq_true, decide_eq_true_eq]; rintro ⟨x, hx, rfl⟩; exact h1 hx)]
@@ -667,32 +703,32 @@ theorem C14_bound (n : Nat) (c m : Map Val) (e : Nat) (nds : List Nat) (ts : Lis
   rfl
 
 /-- single insertion: position outside `]0,1[`, null / non-free first spare dart -/
-theorem C14_bound_single (n : Nat) (c m : Map Val) (e nd1 nd2 : Nat) (t : Rat) (ht : t ≤ 0 ∨ 1 ≤ t) :
-    run (insertVertexOnEdge n c e nd1 nd2 (some t)) m = (.err errVertexBound, m) := by
+theorem C14_bound_single (n : Nat) (m : Map Val) (e nd1 nd2 : Nat) (t : Rat) (ht : t ≤ 0 ∨ 1 ≤ t) :
+    run (insertVertexOnEdge n e nd1 nd2 (some t)) m = (.err errVertexBound, m) := by
   unfold insertVertexOnEdge
   have : optOutOfUnit (some t) = true := by
     unfold optOutOfUnit outOfUnit; rcases ht with hh | hh <;> simp [hh]
   simp only [Prog.bind_eq, bind]
   rw [if_pos this]; rfl
 
-theorem C14_first_dart_single (n : Nat) (c m : Map Val) (e nd1 nd2 : Nat) (t : Option Rat)
+theorem C14_first_dart_single (n : Nat) (m : Map Val) (hs : Sized 3 m) (e nd1 nd2 : Nat) (t : Option Rat)
     (ht : optOutOfUnit t = false) (hok : m.okβ 2 e = true)
-    (h1 : nd1 = 0 ∨ (nd1 < c.n ∧ c.isFree 3 nd1 = false)) :
-    run (insertVertexOnEdge n c e nd1 nd2 t) m
+    (h1 : nd1 = 0 ∨ (nd1 < m.n ∧ m.isFree 3 nd1 = false)) :
+    run (insertVertexOnEdge n e nd1 nd2 t) m
       = (.err (errInvalidDarts "first-dart-is-null-or-not-free"), m) := by
   unfold insertVertexOnEdge
   simp only [Prog.bind_eq, bind]
   rw [if_neg (by simp [ht])]
   simp only [run_rB, hok, if_true]
   rw [run_bind]
-  have : run (nullOrNotFreeNT c nd1) m = (.ok true, m) := by
-    unfold nullOrNotFreeNT
+  have : run (nullOrNotFreeTx nd1) m = (.ok true, m) := by
+    unfold nullOrNotFreeTx
     rcases h1 with h1 | ⟨h1, h2⟩
     · simp [h1]
     · by_cases h0 : nd1 = 0
       · simp [h0]
       · simp only [h0, if_false, Prog.bind_eq, bind]
-        rw [run_bind, run_isFreeNT]; simp [h1, h2]
+        rw [run_bind, run_isFreeTx m nd1 (okβ_of_lt hs h1)]; simp [h2]
   rw [this]; rfl
 
 /-! ## (c) positions of the new vertices -/
@@ -781,65 +817,147 @@ theorem KeepsAtt.att {α : Type} {p : P Val α} (hp : KeepsAtt p) {m m' : Map Va
     (h : run p m = (.ok a, m')) (s d : Nat) : m'.att s d = m.att s d := by
   have := hp m; rw [h] at this; unfold Map.att; rw [this]
 
-/-- the first-side loop writes `v1 + (v2 - v1)·t` into the slot of each new dart and touches no other slot -/
-theorem chainFirst_att (v1 v2 : Val) : ∀ (l : List (Rat × Nat)) (prev : Nat) (m m' : Map Val) (a : Nat),
-    run (chainFirst v1 v2 prev l) m = (.ok a, m') → (l.map Prod.snd).Nodup →
-      (∀ x ∈ l, m'.att 0 x.2 = some (placeVal v1 v2 (some x.1))) ∧
-      (∀ s d, (s ≠ 0 ∨ d ∉ l.map Prod.snd) → m'.att s d = m.att s d) := by
+theorem keepsAtt_chainFirst : ∀ (l : List Nat) (prev : Nat), KeepsAtt (chainFirst prev l) := by
+  intro l
+  induction l with
+  | nil => intro prev; exact KeepsAtt.pure _
+  | cons nd rest ih =>
+      intro prev
+      unfold chainFirst
+      exact KeepsAtt.bind (keepsAtt_oneLinkCore _ _) fun _ => ih nd
+
+/-- the outcome of the program depends on the β tables only, and it writes nothing -/
+def BOnly {α : Type} (p : P Val α) : Prop :=
+  ReadOnly p ∧ ∀ m m1 : Map Val, m1.b = m.b → (run p m1).1 = (run p m).1
+
+theorem BOnly.pure {α : Type} (a : α) : BOnly (pure a : P Val α) := ⟨ReadOnly.pure a, fun _ _ _ => rfl⟩
+
+theorem BOnly.bind {α β : Type} {p : P Val α} {f : α → P Val β} (hp : BOnly p) (hf : ∀ a, BOnly (f a)) :
+    BOnly (p.bind f) := by
+  refine ⟨ReadOnly.bind hp.1 fun a => (hf a).1, ?_⟩
+  intro m m1 hb
+  rw [run_bind, run_bind]
+  have e := hp.2 m m1 hb
+  have s1 := hp.1 m1
+  have s0 := hp.1 m
+  match h1 : run p m1, h0 : run p m with
+  | (o1, x1), (o0, x0) =>
+      rw [h1] at e s1; rw [h0] at e s0
+      simp only at e s1 s0
+      subst e s1 s0
+      cases o1 with
+      | ok a => exact (hf a).2 _ _ hb
+      | err e => rfl
+      | retry => rfl
+      | panic => rfl
+
+theorem BOnly.rB (i d : Nat) : BOnly (rB i d : P Val Nat) := by
+  refine ⟨ReadOnly.rB i d, ?_⟩
+  intro m m1 hb
+  simp only [run_rB']
+  have e1 : m1.okβ i d = m.okβ i d := by unfold Map.okβ; rw [hb]
+  have e2 : m1.β i d = m.β i d := by unfold Map.β; rw [hb]
+  rw [e1, e2]; split <;> rfl
+
+theorem bOnly_bfs (gen : Nat → P Val (List Nat)) (hg : ∀ d, BOnly (gen d)) :
+    ∀ fuel pending marked out, BOnly (bfs gen fuel pending marked out) := by
+  intro fuel
+  induction fuel with
+  | zero => intro p mk o; exact BOnly.pure _
+  | succ f ih =>
+      intro p mk o
+      cases p with
+      | nil => exact BOnly.pure _
+      | cons d rest =>
+          unfold bfs
+          exact BOnly.bind (hg d) (fun ims => ih _ _ _)
+
+theorem bOnly_vertexId2 (k d : Nat) : BOnly (vertexId2 (X := Val) k d) := by
+  unfold vertexId2 orbitWith
+  refine BOnly.bind (bOnly_bfs _ (fun x => ?_) _ _ _ _) fun _ => BOnly.pure _
+  unfold gen2
+  exact BOnly.bind (BOnly.rB _ _) fun _ => BOnly.bind (BOnly.rB _ _) fun _ =>
+    BOnly.bind (BOnly.rB _ _) fun _ => BOnly.bind (BOnly.rB _ _) fun _ => BOnly.pure _
+
+/-- the placement loop: each point goes to the slot `vertex_id_transac(new_d)`; nothing else is written -/
+theorem placeVertices_att (k : Nat) (v1 v2 : Val) : ∀ (l : List (Rat × Nat)) (m m' : Map Val),
+    run (placeVertices k v1 v2 l) m = (.ok (), m') →
+    (l.map (fun x => (run (vertexId2 k x.2) m).1)).Nodup →
+      m'.b = m.b ∧
+      (∀ x ∈ l, ∀ vid, (run (vertexId2 k x.2) m).1 = .ok vid → m'.att 0 vid = some (placeVal v1 v2 (some x.1))) ∧
+      (∀ s d, (s ≠ 0 ∨ ∀ x ∈ l, (run (vertexId2 k x.2) m).1 ≠ .ok d) → m'.att s d = m.att s d) := by
   intro l
   induction l with
   | nil =>
-      intro prev m m' a h _
-      simp [chainFirst] at h
-      obtain ⟨_, rfl⟩ := h
-      exact ⟨by simp, fun _ _ _ => rfl⟩
+      intro m m' h _
+      simp [placeVertices] at h
+      subst h
+      exact ⟨rfl, by simp, fun _ _ _ => rfl⟩
   | cons x rest ih =>
-      intro prev m m' a h hnd
+      intro m m' h hnd
       obtain ⟨t, nd⟩ := x
-      unfold chainFirst at h
-      obtain ⟨_, m1, h1, h⟩ := run_bind_ok h
-      have e1 := (keepsAtt_oneLinkCore prev nd).att h1
-      obtain ⟨_, m2, h2, h⟩ := run_bind_ok h
-      -- the write
+      unfold placeVertices at h
+      obtain ⟨vid0, hv0, h⟩ := ro_bind_ok (readOnly_vertexId2 k nd) h
+      obtain ⟨_, m1, h2, h⟩ := run_bind_ok h
       unfold writeVtx at h2
       simp only [Prog.bind_eq, bind] at h2
       rw [run_rA] at h2
-      by_cases hok : m1.okA 0 nd = true
+      by_cases hok : m.okA 0 vid0 = true
       · simp only [hok, if_true, run_wA, Prog.ret_bind, Prog.pure_eq, run_ret, Prod.mk.injEq] at h2
         obtain ⟨_, rfl⟩ := h2
-        simp only [List.map_cons, List.nodup_cons] at hnd
-        obtain ⟨i1, i2⟩ := ih nd _ m' a h hnd.2
-        constructor
-        · intro y hy
+        have hb1 : (m.setA 0 vid0 (some (placeVal v1 v2 (some t)))).b = m.b := rfl
+        have hout : ∀ d, (run (vertexId2 k d) (m.setA 0 vid0 (some (placeVal v1 v2 (some t))))).1
+            = (run (vertexId2 k d) m).1 := fun d => (bOnly_vertexId2 k d).2 _ _ hb1
+        simp only [List.map_cons, List.nodup_cons, List.mem_map, not_exists, not_and] at hnd
+        obtain ⟨hhead, hrest⟩ := hnd
+        have hrest' : (rest.map (fun x => (run (vertexId2 k x.2)
+            (m.setA 0 vid0 (some (placeVal v1 v2 (some t))))).1)).Nodup := by
+          simp only [hout]; exact hrest
+        obtain ⟨i0, i1, i2⟩ := ih _ m' h hrest'
+        simp only [hout] at i1 i2
+        have hv0' : (run (vertexId2 k nd) m).1 = .ok vid0 := by rw [hv0]
+        refine ⟨i0.trans hb1, ?_, ?_⟩
+        · intro y hy vid hvid
           simp only [List.mem_cons] at hy
           rcases hy with rfl | hy
-          · rw [i2 0 nd (Or.inr hnd.1), Map.att_setA]; simp [hok]
-          · exact i1 y hy
+          · simp only at hvid
+            rw [hv0'] at hvid
+            simp only [Out.ok.injEq] at hvid
+            subst hvid
+            rw [i2 0 vid0 (Or.inr fun z hz hh => hhead z hz (by rw [hh, hv0'])), Map.att_setA]
+            simp [hok]
+          · exact i1 y hy vid hvid
         · intro s d hsd
-          have : s ≠ 0 ∨ d ∉ rest.map Prod.snd := by
+          have c1 : s ≠ 0 ∨ ∀ x ∈ rest, (run (vertexId2 k x.2) m).1 ≠ .ok d := by
             rcases hsd with hs | hd
             · exact Or.inl hs
-            · exact Or.inr (fun hh => hd (by simp [hh]))
-          rw [i2 s d this, Map.att_setA, ← e1 s d]
-          have : ¬ (0 = s ∧ nd = d ∧ m1.okA 0 nd = true) := by
+            · exact Or.inr fun z hz => hd z (by simp [hz])
+          rw [i2 s d c1, Map.att_setA]
+          have : ¬ (0 = s ∧ vid0 = d ∧ m.okA 0 vid0 = true) := by
             rintro ⟨rfl, rfl, _⟩
             rcases hsd with hs | hd
             · exact hs rfl
-            · exact hd (by simp)
+            · exact hd (t, nd) (by simp) hv0'
           simp [this]
       · simp [hok] at h2
 
-/-- **C14 (c)**: after a successful `insert_vertices_on_edge` the slot of the `i`-th new dart holds
-    `v1 + (v2 - v1)·t_i`, where `v1`, `v2` are the end points read before the first write
-    (first-half spare darts pairwise distinct) -/
-theorem C14_new_vertex_position {n : Nat} {c m m' : Map Val} {e : Nat} {nds : List Nat} {ts : List Rat}
-    (h : run (insertVerticesOnEdge n c e nds ts) m = (.ok (), m')) (hnd : (nds.take ts.length).Nodup) :
+/-- **C14 (c)**: after a successful `insert_vertices_on_edge` the `i`-th new point `v1 + (v2 - v1)·t_i` sits in the
+    slot of the VERTEX identifier of the `i`-th new dart, computed on the resulting map (since /repo 54572f5;
+    before, it sat in the slot of the dart id: finding D11), and no other slot of any storage has changed.
+    `v1`, `v2` are the end points read before the first write.  Hypothesis: the new darts belong to pairwise
+    distinct vertices of the result (true whenever the first-half darts are distinct; validated by the oracle, not
+    proved — it needs the orbit calculus of C03). -/
+theorem C14_new_vertex_position {n : Nat} {m m' : Map Val} {e : Nat} {nds : List Nat} {ts : List Rat}
+    (h : run (insertVerticesOnEdge n e nds ts) m = (.ok (), m'))
+    (hnd : ((ts.zip (nds.take ts.length)).map (fun x => (run (vertexId2 n x.2) m').1)).Nodup) :
     ∃ vid1 vid2 v1 v2,
       run (vertexId2 n e) m = (.ok vid1, m) ∧
       run (vertexId2 n (if m.β 1 e ≠ 0 then m.β 1 e else m.β 2 e)) m = (.ok vid2, m) ∧
       m.att 0 vid1 = some v1 ∧ m.att 0 vid2 = some v2 ∧
-      (∀ x ∈ ts.zip (nds.take ts.length), m'.att 0 x.2 = some (placeVal v1 v2 (some x.1))) ∧
-      (∀ s d, (s ≠ 0 ∨ d ∉ nds.take ts.length) → m'.att s d = m.att s d) := by
+      (∀ x ∈ ts.zip (nds.take ts.length), ∀ vid, (run (vertexId2 n x.2) m').1 = .ok vid →
+        m'.att 0 vid = some (placeVal v1 v2 (some x.1))) ∧
+      (∀ s d, (s ≠ 0 ∨ ∀ x ∈ ts.zip (nds.take ts.length), (run (vertexId2 n x.2) m').1 ≠ .ok d) →
+        m'.att s d = m.att s d) := by
   obtain ⟨hlen, _, _, _, _, _, _, vid1, vid2, v1, v2, h1, h2, h3, h4, hbody⟩ := insertVertices_ok_elim h
   refine ⟨vid1, vid2, v1, v2, h1, h2, h3, h4, ?_⟩
   unfold insertVerticesBody at hbody
@@ -848,17 +966,21 @@ theorem C14_new_vertex_position {n : Nat} {c m m' : Map Val} {e : Nat} {nds : Li
   obtain ⟨_, mb, hb, hbody⟩ := run_bind_ok hbody
   have eb := (keepsAtt_whenP (keepsAtt_iUnlinkCore 2 e)).att hb
   obtain ⟨prev, mc, hc, hbody⟩ := run_bind_ok hbody
-  have hsnd : (ts.zip (nds.take ts.length)).map Prod.snd = nds.take ts.length := by
-    apply List.map_snd_zip
-    simp [List.length_take]
-  obtain ⟨i1, i2⟩ := chainFirst_att v1 v2 _ _ _ _ _ hc (by rw [hsnd]; exact hnd)
-  rw [hsnd] at i2
+  have ec := (keepsAtt_chainFirst _ _).att hc
   obtain ⟨_, md, hd, hbody⟩ := run_bind_ok hbody
-  have ed := (keepsAtt_oneLinkCore prev (m.β 1 e)).att hd
-  have ee := (keepsAtt_whenP (keepsAtt_side2 e (m.β 2 e) _ _)).att hbody
-  constructor
-  · intro x hx; rw [ee, ed]; exact i1 x hx
-  · intro s d hsd; rw [ee, ed, i2 s d hsd, eb, ea]
+  have ed := (keepsAtt_whenP (keepsAtt_oneLinkCore prev (m.β 1 e))).att hd
+  obtain ⟨_, me, he, hbody⟩ := run_bind_ok hbody
+  have ee := (keepsAtt_whenP (keepsAtt_side2 e (m.β 2 e) _ _)).att he
+  -- the β tables of the result are those before the placement loop
+  have hbb : m'.b = me.b := by
+    have st := attrOnly_placeVertices n v1 v2 (ts.zip (nds.take ts.length)) me
+    rw [hbody] at st; exact st.b
+  have hout : ∀ d, (run (vertexId2 n d) m').1 = (run (vertexId2 n d) me).1 :=
+    fun d => (bOnly_vertexId2 n d).2 _ _ hbb
+  simp only [hout] at hnd ⊢
+  obtain ⟨_, i1, i2⟩ := placeVertices_att n v1 v2 _ _ _ hbody hnd
+  refine ⟨i1, fun s d hsd => ?_⟩
+  rw [i2 s d hsd, ee, ed, ec, eb, ea]
 
 /-! geometry of the written point over ℚ -/
 
@@ -914,7 +1036,7 @@ theorem C14_lerp_order (a b : P2) (t t' : Rat) :
 
 /-! ## non-vacuity -/
 
-/-- triangle 1-2-3, dart 4 opposite to dart 1 (1-free: base dart 4 is the D8 shape, base dart 1 is not),
+/-- triangle 1-2-3, dart 4 opposite to dart 1 and 1-free (base dart 4 is the shape of the former finding D8),
     spare darts 5, 6 -/
 def exMap : Map Val :=
   { (Map.empty 3 6 7 : Map Val) with
@@ -923,38 +1045,42 @@ def exMap : Map Val :=
            Array.replicate 8 none, Array.replicate 8 none, Array.replicate 8 none,
            Array.replicate 8 none, Array.replicate 8 none] }
 
+theorem ok_of_fst {p : P Val Unit} {m : Map Val} (h : (run p m).1 = .ok ()) : run p m = (.ok (), (run p m).2) := by
+  revert h
+  generalize run p m = r
+  obtain ⟨o, m'⟩ := r
+  intro h; simp at h; subst h; rfl
+
 example : WF 3 exMap := by decide +kernel
-example : (run (insertVerticesOnEdge exMap.n exMap 1 [5, 6] [1/4]) exMap).1 = .ok () := by decide +kernel
-/-- the partial theorem applies to a successful two-dart insertion -/
-example : WF 3 (run (insertVerticesOnEdge exMap.n exMap 1 [5, 6] [1/4]) exMap).2 :=
-  C14_insertVertices_preserves_WF_partial exMap _ 1 [5, 6] [1/4] (by decide +kernel) (by decide +kernel)
-    (by decide +kernel) (by decide +kernel) (by decide +kernel)
-    (by
-      have : (run (insertVerticesOnEdge exMap.n exMap 1 [5, 6] [1/4]) exMap).1 = .ok () := by decide +kernel
-      revert this
-      generalize run (insertVerticesOnEdge exMap.n exMap 1 [5, 6] [1/4]) exMap = r
-      obtain ⟨o, m'⟩ := r
-      intro h; simp at h; subst h; rfl)
-example : (run (insertVerticesOnEdge exMap.n exMap 1 [5, 6] [1/4]) exMap).2.att 0 5 = some (.pt 1 0 0) := by
+example : (run (insertVerticesOnEdge exMap.n 1 [5, 6] [1/4]) exMap).1 = .ok () := by decide +kernel
+/-- the theorem applies to a successful two-dart insertion … -/
+example : WF 3 (run (insertVerticesOnEdge exMap.n 1 [5, 6] [1/4]) exMap).2 :=
+  C14_insertVertices_preserves_WF exMap _ 1 [5, 6] [1/4] (by decide +kernel) (by decide +kernel)
+    (by decide +kernel) (by decide +kernel) (ok_of_fst (by decide +kernel))
+/-- … and to the shape of the former finding D8 (two-dart edge, base dart 4 is 1-free): the call succeeds, the null
+    dart keeps its null images, the result is well formed -/
+example : (run (insertVerticesOnEdge exMap.n 4 [5, 6] [1/2]) exMap).1 = .ok () := by decide +kernel
+example : (run (insertVerticesOnEdge exMap.n 4 [5, 6] [1/2]) exMap).2.β 0 0 = 0 := by decide +kernel
+example : WF 3 (run (insertVerticesOnEdge exMap.n 4 [5, 6] [1/2]) exMap).2 :=
+  C14_insertVertices_preserves_WF exMap _ 4 [5, 6] [1/2] (by decide +kernel) (by decide +kernel)
+    (by decide +kernel) (by decide +kernel) (ok_of_fst (by decide +kernel))
+/-- the new point sits at the vertex id: with the spare darts in the order (6, 5) the new vertex {6, 5} has id 5
+    (former finding D11: the point used to be stored in slot 6) -/
+example : (run (insertVerticesOnEdge exMap.n 1 [6, 5] [1/4]) exMap).2.att 0 5 = some (.pt 1 0 0) ∧
+    (run (vertexId2 exMap.n 6) (run (insertVerticesOnEdge exMap.n 1 [6, 5] [1/4]) exMap).2).1 = .ok 5 := by
   decide +kernel
-example : (run (insertVertexOnEdge exMap.n exMap 2 5 0 none) exMap).1 = .ok () := by decide +kernel
-example : WF 3 (run (insertVertexOnEdge exMap.n exMap 2 5 0 none) exMap).2 :=
+example : (run (insertVertexOnEdge exMap.n 2 5 0 none) exMap).1 = .ok () := by decide +kernel
+example : WF 3 (run (insertVertexOnEdge exMap.n 2 5 0 none) exMap).2 :=
   C14_insertVertex_preserves_WF exMap _ 2 5 0 none (by decide +kernel) (by decide +kernel) (by decide +kernel)
-    (by decide +kernel) (by decide +kernel)
-    (by
-      have : (run (insertVertexOnEdge exMap.n exMap 2 5 0 none) exMap).1 = .ok () := by decide +kernel
-      revert this
-      generalize run (insertVertexOnEdge exMap.n exMap 2 5 0 none) exMap = r
-      obtain ⟨o, m'⟩ := r
-      intro h; simp at h; subst h; rfl)
+    (by decide +kernel) (by decide +kernel) (ok_of_fst (by decide +kernel))
 /-- the error theorems' hypotheses are satisfiable -/
-example : (run (insertVerticesOnEdge exMap.n exMap 1 [5] [1/4]) exMap).1 = .err (errWrongAmountDarts 2 1) := by
-  rw [C14_wrong_count _ _ _ _ _ _ (by decide)]; rfl
-example : (atomically (insertVerticesOnEdge exMap.n exMap 1 [5, 2] [1/4]) exMap).1
+example : (run (insertVerticesOnEdge exMap.n 1 [5] [1/4]) exMap).1 = .err (errWrongAmountDarts 2 1) := by
+  rw [C14_wrong_count _ _ _ _ _ (by decide)]; rfl
+example : (atomically (insertVerticesOnEdge exMap.n 1 [5, 2] [1/4]) exMap).1
     = .err (errInvalidDarts "one-dart-is-not-free") := by decide +kernel
-example : (atomically (insertVerticesOnEdge exMap.n exMap 1 [5, 6] [5/4]) exMap).1 = .err errVertexBound := by
+example : (atomically (insertVerticesOnEdge exMap.n 1 [5, 6] [5/4]) exMap).1 = .err errVertexBound := by
   decide +kernel
-example : (atomically (insertVerticesOnEdge exMap.n exMap 4 [5, 0] [1/2]) exMap).1
+example : (atomically (insertVerticesOnEdge exMap.n 4 [5, 0] [1/2]) exMap).1
     = .err (errInvalidDarts "one-dart-of-the-second-half-is-null") := by decide +kernel
 example : (P2.lerp ⟨0, 0⟩ ⟨4, 0⟩ (1/4)) = ⟨1, 0⟩ := by decide +kernel
 
